@@ -231,6 +231,17 @@ fn run(events: &[Ev]) -> Result<Outcome, V> {
                 return Err(("event_changed_another_instruments_unrealised_pnl", format!("event #{idx} {ev:?} changed instrument {k}: {:?} -> {now:?}", before[k])));
             }
         }
+        // LIFE CYCLE: now and then the state of the event's instrument and the connectivity state are persisted and the history carries on with the restored copy
+        if (idx * 5 + events.len()) % 9 == 4 {
+            out.checks += 1;
+            let restored = fixtures::persist_and_restore("instrument state", engine.state.instruments.instrument_index_mut(&InstrumentIndex(i)))
+                .and_then(|a| fixtures::persist_and_restore("connectivity state", &mut engine.state.connectivity).map(|b| a && b));
+            match restored {
+                Ok(true) => out.cells.push("lifecycle:engine_state_persisted_and_restored"),
+                Ok(false) => out.cells.push("lifecycle:engine_state_does_not_serialise_to_json"),
+                Err(why) => return Err(("engine_state_changed_by_persisting_and_restoring", format!("after event #{idx} {ev:?}: {why}"))),
+            }
+        }
     }
     Ok(out)
 }
@@ -507,6 +518,7 @@ fn main() {
             "priced_market_item_with_open_position_while_the_account_link_is_reconnecting",
             "account_link_reconnecting_with_open_position",
             "market_link_reconnecting_with_open_position",
+            "lifecycle:engine_state_persisted_and_restored",
         ] {
             report.require(c);
         }
